@@ -514,7 +514,7 @@ fn from_name_case(name_len: usize, present: usize) {
 
 //@ props: C02 C08
 //@ functions: ArchiveFileBlock::from (FileStart arm: name read with read_exact)
-//@ bounds: CONCRETE cases only — name length 3 with 3, 2, 0 name bytes present; name length 1 with 0 present; empty name — ASCII name bytes, symbolic id (a symbolic truncation point crashed the back end, symbolic name lengths did not finish)
+//@ bounds: CONCRETE cases only — name length 3 with 3, 2, 0 name bytes present; name length 1 with 0 present; empty name; no byte at all — ASCII name bytes, symbolic id (a symbolic truncation point crashed the back end, symbolic name lengths did not finish)
 //@ stubs: alloc::fmt::format; From<mla::Error> for io::Error
 //@ outside: every other name length and truncation point; non-ASCII names
 //@ replay: verif_replay_lib::lib_from_name
@@ -528,5 +528,13 @@ fn h_lib_from_name() {
     from_name_case(3, 0);
     from_name_case(1, 0);
     from_name_case(0, 0);
+    // no byte at all: that is not a block (in particular not the end-of-data marker)
+    {
+        let mut empty: &[u8] = &[];
+        let r = ArchiveFileBlock::from(&mut empty);
+        let refused = r.is_err();
+        core::mem::forget(r);
+        assert!(refused, "an exhausted source was parsed as a block: a cut on a block boundary is reported as a complete archive");
+    }
     kani::cover!(true, "all cases executed");
 }
